@@ -23,6 +23,7 @@ func genCfg(rng *hx.Rng, prop string, meta *hx.Meta) cfg {
 				cs.CtxDone = true
 			} else if (cs.Kind == 2 || cs.Kind == 3) && rng.Chance(50) {
 				cs.CtxLive = true
+				cs.CtxDL = rng.Bool()
 			}
 			ws.Calls = append(ws.Calls, cs)
 		}
